@@ -643,6 +643,54 @@ def _assume_mode(fwd):
     return ok
 
 
+# --------------------------------------------------------------------------- mask cache
+@rule('C02.maskcache', floor=1)
+def maskcache(repo, out):
+    """The cached input-scope mask is keyed by everything it is computed from (scope and mode)."""
+    fn = repo.func('openmdao/jacobians/jacobian.py', 'SplitJacobian._get_mask')
+    params = {a.arg for a in fn.node.args.args if a.arg != 'self'}
+    n = 0
+    for st in astx.walk_stmts(fn.node.body):
+        if not isinstance(st, ast.Try):
+            continue
+        # try: v = cache[K]   except KeyError: v = E ; cache[K2] = v
+        look = [s for s in st.body if isinstance(s, ast.Assign) and isinstance(s.value, ast.Subscript)]
+        if not look or not st.handlers:
+            continue
+        key = look[0].value.slice
+        cache = astx.path(look[0].value.value)
+        tgt = astx.path(look[0].targets[0])
+        comp = [s for h in st.handlers for s in h.body if isinstance(s, ast.Assign) and astx.path(s.targets[0]) == tgt]
+        store = [s for h in st.handlers for s in h.body if isinstance(s, ast.Assign)
+                 and isinstance(s.targets[0], ast.Subscript) and astx.path(s.targets[0].value) == cache]
+        if not comp or not store:
+            out.unsure(fn, st, 'cache miss branch not in the `v = E; cache[K] = v` form')
+            continue
+        n += 1
+        used = {x for x in astx.names(comp[0].value) if x in params}
+        in_key = {x for x in astx.names(key) if x in params}
+        if not astx.same(key, store[0].targets[0].slice):
+            out.bad(fn, store[0], f'mask is looked up under {astx.src(key)} but stored under '
+                    f'{astx.src(store[0].targets[0].slice)}', key='maskcache-key-mismatch')
+        elif not used <= in_key:
+            out.bad(fn, look[0], f'cached mask is computed from {sorted(used)} but the cache key {astx.src(key)} '
+                    f'only depends on {sorted(in_key)}: a mask computed for one matvec scope is reused for another '
+                    '(fwd applies J.Mask, rev Mask.J^T with a stale Mask: not adjoint to each other)',
+                    key='maskcache-key')
+        elif 'mode' in params and 'mode' not in in_key and False:
+            pass
+        else:
+            # the key must identify the scope, not the vector object identity alone
+            out.ok(fn, look[0], f'key {astx.src(key)} covers {sorted(used)}')
+    if n == 0:
+        # no cache at all is fine (mask recomputed every time)
+        rets = [s for s in astx.walk_stmts(fn.node.body) if isinstance(s, ast.Return)]
+        if rets and all(isinstance(r.value, ast.Call) and astx.callee_attr(r.value) == 'get_mask' for r in rets):
+            out.ok(fn, rets[0], 'mask recomputed on every call (no cache)')
+        else:
+            raise AnalysisError('SplitJacobian._get_mask: cache idiom not recognised')
+
+
 # --------------------------------------------------------------------------- mode tables
 OUTK = ('_doutputs', 'd_outputs')
 RESK = ('_dresiduals', 'd_residuals')
@@ -802,6 +850,11 @@ selftest(
     Mutant('modes-krylov-swap', 'openmdao/solvers/linear/scipy_iter_solver.py', "            x_vec = system._dresiduals\n            b_vec = system._doutputs\n\n        x_vec.set_val(in_arr)",
            "            x_vec = system._doutputs\n            b_vec = system._dresiduals\n\n        x_vec.set_val(in_arr)", 'C02.modes'),
     Mutant('modes-jvp', 'openmdao/core/problem.py', "            lkind, rkind = 'residual', 'output'", "            lkind, rkind = 'output', 'residual'", 'C02.modes'),
+    Mutant('maskcache-mode-only', _JAC, "mask = self._mask_caches[(d_inputs._names, mode)]", "mask = self._mask_caches[mode]", 'C02.maskcache',
+           also=[(_JAC, "self._mask_caches[(d_inputs._names, mode)] = mask", "self._mask_caches[mode] = mask")]),
+    Mutant('maskcache-key-mismatch', _JAC, "self._mask_caches[(d_inputs._names, mode)] = mask", "self._mask_caches[(mode, d_inputs._names)] = mask", 'C02.maskcache'),
+    Twin('twin-maskcache-nocache', _JAC, "        try:\n            mask = self._mask_caches[(d_inputs._names, mode)]\n        except KeyError:\n            mask = d_inputs.get_mask()\n            self._mask_caches[(d_inputs._names, mode)] = mask\n\n        return mask",
+         "        return d_inputs.get_mask()"),
     Twin('twin-subjac-rename', SUBJAC, "        val = self.info['val'] if randgen is None else self.get_rand_val(randgen)\n        self._res_view += val @ self._in_view",
          "        mat = self.info['val'] if randgen is None else self.get_rand_val(randgen)\n        self._res_view += mat @ self._in_view"),
     Twin('twin-prod-flip', 'openmdao/matrices/coo_matrix.py', "        if mode == 'fwd':\n            return self._matrix @ self._get_masked_arr(in_vec, mask)\n        else:  # rev\n            return self.transpose() @ self._get_masked_arr(in_vec, mask)",
